@@ -43,4 +43,6 @@ VARIANTS = [
     # mutation audit, second operator set: guards on valid requests
     V("extend-rejects-every-valid-range", "src/soundevent/arrays/operations.py", "    if start > stop:\n        raise ValueError(\n            f\"Start value {start} must be less than stop value {stop}\"\n        )\n\n    step = get_dim_step(arr, dim)", "    if start < stop:\n        raise ValueError(\n            f\"Start value {start} must be less than stop value {stop}\"\n        )\n\n    step = get_dim_step(arr, dim)", "R17.3"),
     V("crop-width-rejects-every-smaller-width", "src/soundevent/arrays/operations.py", "    if width >= array.sizes[dim]:", "    if width <= array.sizes[dim]:", "R17.5"),
+    # G.12
+    V("empty-crop-range-rejected(G.12)", "src/soundevent/arrays/operations.py", "    if start > stop:\n        raise ValueError(\n            f\"Start value {start} must be less than stop value {stop}\"\n        )", "    if start >= stop:\n        raise ValueError(\n            f\"Start value {start} must be less than stop value {stop}\"\n        )", "G.12"),
 ]
